@@ -58,6 +58,11 @@ func (d Decimal) Ceil(dp int) Decimal {
 		return zero(d.Signbit())
 	}
 
+	if dp < -2*maxBiasedExponent {
+		// every quantum this large exceeds all finite values; avoids overflowing dp*-1
+		dp = -2 * maxBiasedExponent
+	}
+
 	dp = dp*-1 + exponentBias
 	iexp := int(exp)
 
@@ -70,7 +75,7 @@ func (d Decimal) Ceil(dp int) Decimal {
 			return zero(d.Signbit())
 		}
 
-		return compose(false, uint128{1, 0}, int16(dp))
+		return quantised(false, uint128{1, 0}, dp)
 	}
 
 	var trunc int8
@@ -112,11 +117,7 @@ func (d Decimal) Ceil(dp int) Decimal {
 		}
 	}
 
-	if exp > maxBiasedExponent {
-		return inf(neg)
-	}
-
-	return compose(neg, sig, exp)
+	return quantised(neg, sig, int(exp))
 }
 
 // Floor returns the greatest Decimal value less than or equal to d that has no
@@ -139,6 +140,11 @@ func (d Decimal) Floor(dp int) Decimal {
 		return zero(d.Signbit())
 	}
 
+	if dp < -2*maxBiasedExponent {
+		// every quantum this large exceeds all finite values; avoids overflowing dp*-1
+		dp = -2 * maxBiasedExponent
+	}
+
 	dp = dp*-1 + exponentBias
 	iexp := int(exp)
 
@@ -151,7 +157,7 @@ func (d Decimal) Floor(dp int) Decimal {
 			return zero(d.Signbit())
 		}
 
-		return compose(true, uint128{1, 0}, int16(dp))
+		return quantised(true, uint128{1, 0}, dp)
 	}
 
 	var trunc int8
@@ -193,11 +199,7 @@ func (d Decimal) Floor(dp int) Decimal {
 		}
 	}
 
-	if exp > maxBiasedExponent {
-		return inf(neg)
-	}
-
-	return compose(neg, sig, exp)
+	return quantised(neg, sig, int(exp))
 }
 
 // Round rounds (or quantises) a Decimal value to the specified number of
@@ -219,6 +221,11 @@ func (d Decimal) Round(dp int, mode RoundingMode) Decimal {
 
 	if sig[0]|sig[1] == 0 {
 		return zero(d.Signbit())
+	}
+
+	if dp < -2*maxBiasedExponent {
+		// every quantum this large exceeds all finite values; avoids overflowing dp*-1
+		dp = -2 * maxBiasedExponent
 	}
 
 	dp = dp*-1 + exponentBias
@@ -252,11 +259,28 @@ func (d Decimal) Round(dp int, mode RoundingMode) Decimal {
 	neg := d.Signbit()
 	sig, exp = mode.round(false, neg, sig, int16(iexp), trunc, digit)
 
-	if exp > maxBiasedExponent {
-		return inf(neg)
+	return quantised(neg, sig, int(exp))
+}
+
+// quantised packs a multiple of a quantum whose exponent may lie above the
+// largest exponent of the format: the coefficient is scaled up while it fits,
+// a zero coefficient stays a zero, and anything larger is an infinity.
+func quantised(neg bool, sig uint128, exp int) Decimal {
+	if sig[0]|sig[1] == 0 {
+		return zero(neg)
 	}
 
-	return compose(neg, sig, exp)
+	for exp > maxBiasedExponent {
+		sig = sig.mul64(10)
+
+		if sig[1] > 0x0002_7fff_ffff_ffff {
+			return inf(neg)
+		}
+
+		exp--
+	}
+
+	return compose(neg, sig, int16(exp))
 }
 
 // RoundingMode determines how a Decimal value is rounded when the result of an
